@@ -205,9 +205,16 @@ impl World for SatWorld {
         // one run in ten: few clauses over a handful of variables whose labels are far apart (differing by
         // multiples of 32 / 64 / 128): small enough for every flag and hash to matter, wide enough for word boundaries
         let sparse = !chain && c.below(10) == 0;
-        let nv = if sparse { 65 + c.below(140) } else if chain { 50 + c.below(if long_chain { 6000 } else { 600 }) } else if big { 11 + c.below(130) } else if wide { 5 + c.below(6) } else { 1 + c.below(6) };
+        // one run in fourteen: a handful of clauses, one of them long (9-14 literals of mixed polarity), with few
+        // enough literal occurrences for the hash clause of the property to apply
+        let longc = !chain && !sparse && c.below(14) == 0;
+        // one run in fourteen: 18-45 clauses that share 3-5 hub literals (watch lists with tens of entries) and
+        // many decide/pop cycles on the hubs, so that watches migrate between long lists in every order
+        let hub = !chain && !sparse && !longc && c.below(14) == 0;
+        let nv = if longc { 9 + c.below(6) } else if hub { 20 + c.below(50) } else if sparse { 65 + c.below(140) } else if chain { 50 + c.below(if long_chain { 6000 } else { 600 }) } else if big { 11 + c.below(130) } else if wide { 5 + c.below(6) } else { 1 + c.below(6) };
         cfg.insert("nv".into(), nv as i64);
-        let big = big || chain || sparse;
+        let big = big || chain || sparse || longc || hub;
+        let mut hub_vars: Vec<u64> = Vec::new();
         let sparse_vars: Vec<u64> = if sparse {
             let k = c.below(nv.min(64));
             let mut u = vec![k, (k + 64) % nv, (k + 128) % nv, (k + 32) % nv, c.below(nv), c.below(nv)];
@@ -220,7 +227,64 @@ impl World for SatWorld {
         cfg.insert("big".into(), big as i64);
         cfg.insert("chain".into(), chain as i64);
         cfg.insert("arena".into(), 1);
-        let mut ops = if sparse {
+        // literals of one clause as K_CLAUSE + K_CLAUSE_EXT operations (slot value +-(var+1), 0 = unused)
+        let emit = |v: &mut Vec<Op>, lits: &[i64]| {
+            for (j, ch) in lits.chunks(4).enumerate() {
+                let mut a = [0i64; 4];
+                a[..ch.len()].copy_from_slice(ch);
+                v.push(Op { c: 0, k: if j == 0 { K_CLAUSE } else { K_CLAUSE_EXT }, a });
+            }
+        };
+        let mut ops = if longc {
+            let mut v = Vec::new();
+            let mut vars: Vec<u64> = (0..nv).collect();
+            o.shuffle(&mut vars);
+            let k = 9 + o.below(nv - 8) as usize;
+            let lits: Vec<i64> = vars[..k].iter().map(|x| if o.bool() { *x as i64 + 1 } else { -(*x as i64 + 1) }).collect();
+            let before = o.below(3);
+            let short = |o: &mut Rng, v: &mut Vec<Op>| {
+                let mut a = [0i64; 4];
+                for slot in a.iter_mut().take(2 + o.below(2) as usize) {
+                    let x = o.below(nv) as i64 + 1;
+                    *slot = if o.bool() { x } else { -x };
+                }
+                v.push(Op { c: 0, k: K_CLAUSE, a });
+            };
+            for _ in 0..before {
+                short(&mut o, &mut v);
+            }
+            emit(&mut v, &lits);
+            for _ in 0..(1 + o.below(3)).saturating_sub(before) {
+                short(&mut o, &mut v);
+            }
+            v
+        } else if hub {
+            let mut v = Vec::new();
+            let mut vars: Vec<u64> = (0..nv).collect();
+            o.shuffle(&mut vars);
+            let nh = 3 + o.below(3) as usize;
+            hub_vars = vars[..nh].to_vec();
+            let hub_pol: Vec<bool> = (0..nh).map(|_| o.bool()).collect();
+            for _ in 0..(18 + o.below(28)) {
+                let mut idx: Vec<usize> = (0..nh).collect();
+                o.shuffle(&mut idx);
+                let take = 2 + o.below((nh.min(4) - 1) as u64) as usize;
+                let mut lits: Vec<i64> = idx[..take]
+                    .iter()
+                    .map(|h| {
+                        let x = hub_vars[*h] as i64 + 1;
+                        if hub_pol[*h] != (o.below(10) == 0) { x } else { -x }
+                    })
+                    .collect();
+                for _ in 0..(1 + o.below(2)) {
+                    let x = vars[nh + o.below(nv - nh as u64) as usize] as i64 + 1;
+                    lits.push(if o.bool() { x } else { -x });
+                }
+                o.shuffle(&mut lits);
+                emit(&mut v, &lits);
+            }
+            v
+        } else if sparse {
             let mut v = Vec::new();
             for _ in 0..(1 + c.below(8)) {
                 let mut a = [0i64; 4];
@@ -267,7 +331,7 @@ impl World for SatWorld {
         };
         let ncallers = 1 + c.below(3);
         let pop_w = 15 + c.below(40);
-        let len = 1 + o.below(if thorough { 120 } else { 50 });
+        let len = 1 + o.below(if thorough { 120 } else { 50 }) + if hub { 60 } else { 0 };
         for _ in 0..len {
             let caller = s.below(ncallers) as u8;
             if o.below(100) < pop_w {
@@ -276,6 +340,8 @@ impl World for SatWorld {
                 // in a ladder, decisions near the bottom start the longest propagation
                 let dv = if sparse && o.below(6) != 0 {
                     *o.pick(&sparse_vars)
+                } else if hub && o.below(5) < 3 {
+                    *o.pick(&hub_vars)
                 } else if chain && o.below(2) == 0 {
                     o.below(8)
                 } else {
